@@ -8,20 +8,22 @@
 (* whose steps are the operations on SHARED synchronisation objects in the *)
 (* order of the Go code (file:function cited next to every step list):     *)
 (*                                                                         *)
-(*   acc           server.go:newConnCh            accept loop              *)
-(*   srv           server.go:serve                hands connections out    *)
-(*   loop(s)       session.go:Serve/serve/done    per-session serve loop   *)
-(*                 + handle_idle.go:handleIdle, user.go:removeState        *)
-(*   rd(s)         command.go:startCommandReader  command reader           *)
-(*   h(s)          handle.go:handleOther          command handler          *)
-(*   idl(s)        handle_idle.go (closure)       IDLE sender              *)
-(*   evp(s)        server.go:newEventCh           event publisher          *)
-(*   pump(s)       async/queued_channel.go        pump of the state's      *)
-(*                                                update queue             *)
-(*   upd(u)        user.go:newUser (closure)      connector update loop    *)
-(*   fwd(u)        update_injector.go:forward     update forwarder         *)
-(*   closer        server.go:Close -> backend.go:Close -> user.go:close    *)
-(*   rem(u)        backend.go:RemoveUser -> user.go:close                  *)
+(*   acc        server.go:newConnCh            accept loop                 *)
+(*   srv        server.go:serve                hands connections out       *)
+(*   loop(s)    session.go:Serve/serve/done    per-session serve loop,     *)
+(*              + handle_idle.go:handleIdle, handle_logout.go,             *)
+(*              user.go:removeState, state.go:ApplyUpdate                  *)
+(*   rd(s)      command.go:startCommandReader  command reader              *)
+(*   h(s)       handle.go:handleOther          command handler             *)
+(*   pump(s)    async/queued_channel.go        pump of the state's queue   *)
+(*   upd(u)     user.go:newUser (closure)      connector update loop       *)
+(*   fwd(u)     update_injector.go:forward     update forwarder            *)
+(*   closer     server.go:Close -> backend.go:Close -> user.go:close       *)
+(*   rem(u)     backend.go:RemoveUser -> user.go:close                     *)
+(* and two goroutines without a step of their own, because all they do is  *)
+(* range over one channel until it is closed:                              *)
+(*   IDLE sender handle_idle.go (closure)      ended <=> idleCh closed     *)
+(*   publisher   server.go:newEventCh          ended <=> eventCh closed    *)
 (*                                                                         *)
 (* Objects: backend.usersLock, user.statesLock (RW), the db client lock    *)
 (* (RW: Read = shared, Write = exclusive), session.userLock,               *)
@@ -37,16 +39,17 @@
 (* moment and closes its listener after Close returned.                    *)
 (*                                                                         *)
 (* Deviations of the pinned code from the intended design are switches     *)
-(* (Fix*): FALSE = what the code does.  Bug seeds a defect (detection      *)
-(* power).  Writes to a connection never block (a client that stops        *)
-(* reading without disconnecting is outside the model).                    *)
+(* named Fix...: FALSE = what the code does.  Bug seeds a defect           *)
+(* (detection power).  Writes to a connection never block (a client that   *)
+(* stops reading without disconnecting is outside the model).              *)
 (***************************************************************************)
 EXTENDS Integers, Sequences, FiniteSets, TLC
 
 CONSTANTS
-  Users,          \* user names (strings)
-  Sessions,       \* session names (strings); a session owns at most one state (one successful LOGIN)
+  Users,          \* user names
+  Sessions,       \* session names; a session owns at most one state (one successful LOGIN)
   LoginTo,        \* [Sessions -> SUBSET Users]: users a session's LOGIN may name
+  PreLogged,      \* [Sessions -> Users \cup {NoUser}]: sessions that start connected and authenticated (families without the accept/LOGIN prefix)
   CmdKinds,       \* command classes clients send: SUBSET AllCmdKinds
   MaxCmds,        \* commands per session
   UpdKinds,       \* SUBSET {"normal", "idchg"}: connector update classes
@@ -54,9 +57,15 @@ CONSTANTS
   ChanCap,        \* buffer of the state update channel (32 in state.go:NewState)
   Removable,      \* SUBSET Users: users the application may RemoveUser
   LateDial,       \* TRUE: clients may also dial after Server.Close began
-  FreeSections,   \* TRUE: a handler runs any sequence of db sections (trace validation); FALSE: Prog(kind)
-  WriterPref,     \* TRUE: a waiting writer blocks new readers (sync.RWMutex); FALSE: trace validation
+  FreeSections,   \* TRUE: a handler runs any sequence of db sections (trace validation); FALSE: the program of its command class
+  WriterPref,     \* TRUE: a waiting writer blocks new readers (sync.RWMutex); FALSE in trace validation (waiting is not observable)
   Labels,         \* TRUE: lab carries the label of the step just taken (trace validation)
+  Eager,          \* TRUE: the environment's first moves are already made in Init (all clients dialed with their first command
+                  \*       sent, all updates submitted, Close and RemoveUser called): the goroutine that consumes each of them
+                  \*       may still do so arbitrarily late, so no interleaving is lost, but far fewer states are distinct
+  Coarse,         \* TRUE: a critical section that holds one lock and contains no other operation on a shared object is ONE
+                  \*       step (Lipton reduction: acquire = right mover, release = left mover); nested acquisitions, waits and
+                  \*       channel operations stay separate steps, so every deadlock and every lock order is kept
   FixAcceptSelect,   \* TRUE: newConnCh's send also selects on serveDoneCh            (code: FALSE)
   FixQueueDiscard,   \* TRUE: state.Close closes the queue with CloseAndDiscardQueued  (code: FALSE)
   FixIDChanged,      \* TRUE: MessageIDChanged reaches snapshots through the queues    (code: FALSE)
@@ -75,11 +84,10 @@ NoUser == "-"
 
 \* goroutines ---------------------------------------------------------------
 Acc == <<"acc", "-">>      Srv == <<"srv", "-">>     Closer == <<"closer", "-">>
-Loop(s) == <<"loop", s>>   Rd(s) == <<"rd", s>>      H(s) == <<"h", s>>
-Idl(s) == <<"idl", s>>     Evp(s) == <<"evp", s>>    Pump(s) == <<"pump", s>>
+Loop(s) == <<"loop", s>>   Rd(s) == <<"rd", s>>      H(s) == <<"h", s>>     Pump(s) == <<"pump", s>>
 Upd(u) == <<"upd", u>>     Fwd(u) == <<"fwd", u>>    Rem(u) == <<"rem", u>>
 
-SessionG == {"loop", "rd", "h", "idl", "evp", "pump"} \X Sessions
+SessionG == {"loop", "rd", "h", "pump"} \X Sessions
 UserG == {"upd", "fwd"} \X Users
 ServerG == {Acc, Srv} \cup SessionG \cup UserG          \* goroutines gluon starts
 AppG == {Closer} \cup ({"rem"} \X Users)                  \* threads of the application
@@ -93,7 +101,7 @@ StatesLock(u) == <<"statesLock", u>>
 DB(u) == <<"db", u>>
 Locks == {UsersLock} \cup ({"userLock", "capsLock"} \X Sessions) \cup ({"statesLock", "db"} \X (Users \cup {NoUser}))
 
-\* The lock hierarchy derived from the code (LockOrder below): a goroutine only acquires downwards in this list.
+\* The lock hierarchy derived from the code (see LockOrder): a goroutine that holds a lock only acquires locks further right.
 \*   session.userLock < session.capsLock < backend.usersLock < db client lock < user.statesLock
 Rank(l) == CASE l[1] = "userLock" -> 1 [] l[1] = "capsLock" -> 2 [] l[1] = "usersLock" -> 3
              [] l[1] = "db" -> 4 [] l[1] = "statesLock" -> 5
@@ -102,7 +110,7 @@ VARIABLES
   pc,         \* [G -> STRING]   "off" = not started, "end" = returned
   lk,         \* [Locks -> [w : G \cup {None}, r : SUBSET G]]
   wg,         \* wait groups: [statesWG, updateWG, forwardWG : Users -> Nat; handleWG : Sessions -> Nat; serveWG : Nat]
-  chan,       \* closed flags of channels
+  chan,       \* set of closed channels <<name, id>>
   listener,   \* "open" | "closed"  (owned by the application)
   backlog,    \* sessions dialed and not yet taken by Accept
   accHand,    \* the connection newConnCh holds while sending it on connCh ("-" = none)
@@ -112,7 +120,6 @@ VARIABLES
   sent,       \* [Sessions -> Nat]
   srvClosed,  \* [Sessions -> BOOLEAN]  the server closed the connection
   cur,        \* [Sessions -> command kind | "none"]  command the reader / loop / handler is working on
-  ip,         \* [Sessions -> Nat]  index into the handler's program
   mode,       \* [Sessions -> "normal" | "idle"]
   sstate,     \* [Sessions -> Users \cup {NoUser}]   Session.state (NoUser = nil)
   userIn,     \* [Users -> BOOLEAN]  entry of backend.users
@@ -124,13 +131,17 @@ VARIABLES
   connQ,      \* [Users -> Seq(update kind)]  the connector's update channel
   fwdHeld,    \* [Users -> update kind | "none"]  update the forwarder / update loop is working on
   submitted,  \* [Users -> Nat]
-  closing,    \* [AppG -> Users \cup {NoUser}]  user whose user.close the thread is executing
+  arg,        \* [AppG \cup handlers -> Users \cup {NoUser}]  user argument of user.close / of LOGIN's GetState
   touches,    \* history: <<goroutine kind, "own" | "foreign">> accesses to a state's snapshot / responders
   afterClose, \* history: a db section was entered after the database of that user had been closed
   lab         \* label of the step just taken (only when Labels)
 
-vars == <<pc, lk, wg, chan, listener, backlog, accHand, cli, inbox, infl, sent, srvClosed, cur, ip, mode, sstate,
-          userIn, states, dbClosed, qItems, qChan, qClosed, connQ, fwdHeld, submitted, closing, touches, afterClose, lab>>
+vars == <<pc, lk, wg, chan, listener, backlog, accHand, cli, inbox, infl, sent, srvClosed, cur, mode, sstate,
+          userIn, states, dbClosed, qItems, qChan, qClosed, connQ, fwdHeld, submitted, arg, touches, afterClose, lab>>
+
+\* everything except pc, lk, lab
+rest == <<wg, chan, listener, backlog, accHand, cli, inbox, infl, sent, srvClosed, cur, mode, sstate,
+          userIn, states, dbClosed, qItems, qChan, qClosed, connQ, fwdHeld, submitted, arg, touches, afterClose>>
 
 Silent == <<"-", "-", "silent", "-">>
 SetLab(g, op, obj) == lab' = IF Labels THEN <<g[1], g[2], op, obj>> ELSE Silent
@@ -140,489 +151,446 @@ NoLab == lab' = Silent
 \* lock primitives
 Free(l) == lk[l].w = None /\ lk[l].r = {}
 HeldBy(g) == {l \in Locks : lk[l].w = g \/ g \in lk[l].r}
-
-\* what an acquire step of g wants: [l, m ("X" exclusive | "R" shared), to]; m = "-" when pc[g] is not an acquire step
-NoAcq == [l |-> None, m |-> "-", to |-> "-"]
-A(l, m, to) == [l |-> l, m |-> m, to |-> to]
-
-\* the user a session goroutine works for
-UOf(s) == sstate[s]
-
-\* Handler programs (FreeSections = FALSE): db sections in code order.
-\*   "R" = db.Read, "W" = db.Write, "Q" = db.Write with QueueOrApplyStateUpdate -> forState inside
-\*   sel  (STORE ...) handle.go:handleSelectedCommand: State.Selected (R), action (W), stateDBWrite 2nd tx (Q), flush (W)
-\*   auth (CREATE/APPEND ...) handle.go:handleAuthenticatedCommand: lookup (R), stateDBWrite (W, Q)
-\*   noop handle_noop.go: State.Selected (R), flush (W)  - no userLock
-Prog(k) == CASE k = "sel" -> <<"R", "W", "Q", "W">> [] k \in {"auth", "lit"} -> <<"R", "W", "Q">> [] k = "noop" -> <<"R", "W">>
-             [] OTHER -> <<>>
-
-AcqOf(g) ==
-  LET k == g[1]  id == g[2]  p == pc[g] IN
-  CASE
-    \* ---- handler: handle_capability.go:handleCapability (capsLock, then getCaps: userLock)
-       k = "h" /\ p = "H.caps.1" -> IF FixCapsOrder THEN A(UserLock(id), "X", "H.caps.2") ELSE A(CapsLock(id), "X", "H.caps.2")
-    [] k = "h" /\ p = "H.caps.2" -> IF FixCapsOrder THEN A(CapsLock(id), "X", "H.caps.3") ELSE A(UserLock(id), "X", "H.caps.3")
-    \* ---- handler: handle_login.go:handleLogin (userLock, capsLock), backend.go:GetState (usersLock), user.go:newState (statesLock W)
-    [] k = "h" /\ p = "H.login.u" -> A(UserLock(id), "X", "H.login.c")
-    [] k = "h" /\ p = "H.login.c" -> A(CapsLock(id), "X", "H.login.chk")
-    [] k = "h" /\ p = "H.login.ul" -> A(UsersLock, "X", "H.login.auth")
-    [] k = "h" /\ p = "H.login.sl" -> A(StatesLock(closing[Closer]), "X", "H.login.sl") \* placeholder, replaced below
-    \* ---- handler: handle.go:handleAuthenticatedCommand / handleSelectedCommand (userLock) then db sections
-    [] k = "h" /\ p = "H.cmd.u" -> A(UserLock(id), "X", "H.cmd.chk")
-    [] k = "h" /\ p = "H.R.acq" -> A(DB(UOf(id)), "R", "H.R.rel")
-    [] k = "h" /\ p = "H.W.acq" -> A(DB(UOf(id)), "X", "H.W.rel")
-    [] k = "h" /\ p = "H.Q.acq" -> A(DB(UOf(id)), "X", "H.Q.sl")
-    [] k = "h" /\ p = "H.Q.sl"  -> A(StatesLock(UOf(id)), "R", "H.Q.in")
-    \* ---- loop: handle_logout.go:handleLogout (userLock, capsLock)
-    [] k = "loop" /\ p = "L.logout.u" -> A(UserLock(id), "X", "L.logout.c")
-    [] k = "loop" /\ p = "L.logout.c" -> A(CapsLock(id), "X", "L.logout.rel")
-    \* ---- loop: state.go:ApplyUpdate (db.Write)
-    [] k = "loop" /\ p = "L.apply.acq" -> A(DB(UOf(id)), "X", "L.apply.in")
-    \* ---- loop: state.go:Idle -> beginIdle -> flushResponses (db.Write)
-    [] k = "loop" /\ p = "L.idle.acq" -> A(DB(UOf(id)), "X", "L.idle.begin")
-    \* ---- loop: user.go:removeState (db.Read; statesLock W; db.Write)
-    [] k = "loop" /\ p = "RS.R.acq" -> A(DB(UOf(id)), "R", "RS.R.rel")
-    [] k = "loop" /\ p = "RS.sl.acq" -> A(StatesLock(UOf(id)), "X", "RS.sl.in")
-    [] k = "loop" /\ p = "RS.W.acq" -> A(DB(UOf(id)), "X", "RS.W.rel")
-    \* ---- update loop: connector_updates.go:apply* (optional db.Read; userDBWrite: db.Write; queueStateUpdate -> forState: statesLock R)
-    [] k = "upd" /\ p = "U.R.acq" -> A(DB(id), "R", "U.R.rel")
-    [] k = "upd" /\ p = "U.W.acq" -> A(DB(id), "X", "U.W.rel")
-    [] k = "upd" /\ p = "U.sl.acq" -> A(StatesLock(id), "R", "U.sl.in")
-    \* ---- user.close (closer / rem): user.go:closeStates (statesLock R), db.Close (db lock W)
-    [] k \in {"closer", "rem"} /\ p = "K.cs.acq" -> A(StatesLock(closing[g]), "R", "K.cs.in")
-    [] k \in {"closer", "rem"} /\ p = "K.db.acq" -> A(DB(closing[g]), "X", "K.db.in")
-    \* ---- backend.go:Close / RemoveUser (usersLock)
-    [] k = "closer" /\ p = "C.ul" -> A(UsersLock, "X", "C.next")
-    [] k = "rem" /\ p = "X.ul" -> A(UsersLock, "X", "X.chk")
-    [] OTHER -> NoAcq
-
-\* LOGIN's newState needs the chosen user, kept in closing-like scratch: tgt is derived from states membership at that point.
-\* (handled by a dedicated action LoginNewState below, so the placeholder above is never used)
-Want(g) == IF pc[g] = "H.login.sl" THEN NoAcq ELSE AcqOf(g)
-
-WantsWrite(l) == \E g \in G : LET a == Want(g) IN a.m = "X" /\ a.l = l
-CanAcquire(g, l, m) ==
-  IF m = "X" THEN Free(l)
-  ELSE /\ lk[l].w = None
-       /\ (WriterPref /\ l[1] \in {"statesLock", "db"}) => ~WantsWrite(l)
-
 Locked(l, g, m) == IF m = "X" THEN [lk EXCEPT ![l].w = g] ELSE [lk EXCEPT ![l].r = @ \cup {g}]
 Unlocked(l, g) == [lk EXCEPT ![l] = [w |-> IF @.w = g THEN None ELSE @.w, r |-> @.r \ {g}]]
-Holds(g, l) == lk[l].w = g \/ g \in lk[l].r
-
 ModeName(l, m) == IF l[1] \in {"statesLock", "db"} THEN l[1] \o "." \o (IF m = "X" THEN "W" ELSE "R") ELSE l[1]
 
 Go(g, to) == pc' = [pc EXCEPT ![g] = to]
 Go2(g, to, g2, to2) == pc' = [pc EXCEPT ![g] = to, ![g2] = to2]
 
-\* everything except pc, lk, lab
-rest == <<wg, chan, listener, backlog, accHand, cli, inbox, infl, sent, srvClosed, cur, ip, mode, sstate,
-          userIn, states, dbClosed, qItems, qChan, qClosed, connQ, fwdHeld, submitted, closing, touches, afterClose>>
+\* what an acquire step of g wants: [l, m ("X" exclusive | "R" shared), to (set of next pcs)]; m = "-": pc[g] is no acquire step
+NoAcq == [l |-> None, m |-> "-", to |-> {}]
+A(l, m, to) == [l |-> l, m |-> m, to |-> to]
 
-\* a db section entered after db.Close of that user (sql: database is closed)
+UOf(s) == sstate[s]      \* the user a session works for
+
+\* Handler programs: db sections in code order.  "R" = db.Read, "W" = db.Write, "Q" = db.Write with
+\* QueueOrApplyStateUpdate -> forState (statesLock R) inside.
+\*   sel  (STORE ...)   handle.go:handleSelectedCommand: userLock; State.Selected (R); stateDBWrite (W, then Q); flush (W)
+\*   auth (CREATE ...)  handle.go:handleAuthenticatedCommand: userLock; stateDBWrite (W, then Q)
+\*   noop               handle_noop.go:handleNoop: no userLock; State.Selected (R); flush (W)
+\* The bounded model keeps one section of every nesting shape: a W section is a Q section without the inner lock.
+EndPc(s) == IF cur[s] = "noop" THEN "H.fin" ELSE "H.cmd.ru"
+SecNext(s, after) ==    \* pcs that may follow position `after` ("start" | "R" | "W" | "Q") of the handler's program
+  IF FreeSections THEN {"H.R.acq", "H.W.acq", "H.Q.acq", EndPc(s)}
+  ELSE CASE cur[s] = "sel"  -> (CASE after = "start" -> {"H.R.acq"} [] after = "R" -> {"H.Q.acq"} [] OTHER -> {EndPc(s)})
+         [] cur[s] = "noop" -> (CASE after = "start" -> {"H.R.acq"} [] after = "R" -> {"H.W.acq"} [] OTHER -> {EndPc(s)})
+         [] OTHER           -> (CASE after = "start" -> {"H.Q.acq"} [] OTHER -> {EndPc(s)})
+
+AcqAt(g, p) ==
+  LET k == g[1]  id == g[2] IN
+  CASE
+    \* handle_capability.go:handleCapability: capsLock.Lock, then getCaps: userLock.Lock (repaired: the other way round)
+       k = "h" /\ p = "H.caps.1" -> A(IF FixCapsOrder THEN UserLock(id) ELSE CapsLock(id), "X", {"H.caps.2"})
+    [] k = "h" /\ p = "H.caps.2" -> A(IF FixCapsOrder THEN CapsLock(id) ELSE UserLock(id), "X", {"H.caps.3"})
+    \* handle_login.go:handleLogin: userLock, capsLock; s.state != nil -> BAD; backend.go:GetState: usersLock; user.go:newState: statesLock W
+    [] k = "h" /\ p = "H.login.u" -> A(UserLock(id), "X", {"H.login.c"})
+    [] k = "h" /\ p = "H.login.c" -> A(CapsLock(id), "X", {IF UOf(id) # NoUser THEN "H.login.rc" ELSE "H.login.ul"})
+    [] k = "h" /\ p = "H.login.ul" -> A(UsersLock, "X", {"H.login.auth"})
+    [] k = "h" /\ p = "H.login.sl" -> A(StatesLock(arg[g]), "X", {"H.login.new"})
+    \* handle.go:handleAuthenticatedCommand / handleSelectedCommand: userLock; s.state == nil -> ErrNotAuthenticated; then the sections
+    [] k = "h" /\ p = "H.cmd.u" -> A(UserLock(id), "X", IF UOf(id) = NoUser THEN {"H.cmd.ru"} ELSE SecNext(id, "start"))
+    [] k = "h" /\ p = "H.R.acq" -> A(DB(UOf(id)), "R", {"H.R.rel"})
+    [] k = "h" /\ p = "H.W.acq" -> A(DB(UOf(id)), "X", {"H.W.rel"})
+    [] k = "h" /\ p = "H.Q.acq" -> A(DB(UOf(id)), "X", {"H.Q.sl"})
+    [] k = "h" /\ p = "H.Q.sl"  -> A(StatesLock(UOf(id)), "R", {"H.Q.in"})
+    \* handle_logout.go:handleLogout (runs on the serve loop): userLock, capsLock
+    [] k = "loop" /\ p = "L.logout.u" -> A(UserLock(id), "X", {"L.logout.c"})
+    [] k = "loop" /\ p = "L.logout.c" -> A(CapsLock(id), "X", {"L.logout.rel"})
+    \* state.go:ApplyUpdate: user.GetDB().Write
+    [] k = "loop" /\ p = "L.apply.acq" -> A(DB(UOf(id)), "X", {"L.apply.in"})
+    \* state.go:Idle -> beginIdle -> flushResponses: user.GetDB().Write
+    [] k = "loop" /\ p = "L.idle.acq" -> A(DB(UOf(id)), "X", {"L.idle.begin"})
+    \* user.go:removeState: db.Read; fn(): statesLock W; db.Write
+    [] k = "loop" /\ p = "RS.R.acq" -> A(DB(UOf(id)), "R", {"RS.R.rel"})
+    [] k = "loop" /\ p = "RS.sl.acq" -> A(StatesLock(UOf(id)), "X", {"RS.sl.in"})
+    [] k = "loop" /\ p = "RS.W.acq" -> A(DB(UOf(id)), "X", {"RS.W.rel"})
+    \* connector_updates.go:apply*: [db.Read]; userDBWrite: db.Write; queueStateUpdate -> forState: statesLock R
+    [] k = "upd" /\ p = "U.R.acq" -> A(DB(id), "R", {"U.R.rel"})
+    [] k = "upd" /\ p = "U.W.acq" -> A(DB(id), "X", {"U.W.rel"})
+    [] k = "upd" /\ p = "U.sl.acq" -> A(StatesLock(id), "R", {"U.sl.in"})
+    \* user.go:close: closeStates (statesLock R); db.Close (db lock W)
+    [] k \in {"closer", "rem"} /\ p = "K.cs.acq" -> A(StatesLock(arg[g]), "R", {"K.cs.in"})
+    [] k \in {"closer", "rem"} /\ p = "K.db.acq" -> A(DB(arg[g]), "X", {"K.db.in"})
+    \* backend.go:Close / RemoveUser: usersLock
+    [] k = "closer" /\ p = "C.ul" -> A(UsersLock, "X", {"C.next"})
+    [] k = "rem" /\ p = "X.ul" -> A(UsersLock, "X", {"X.chk"})
+    [] OTHER -> NoAcq
+
+AcqOf(g) == AcqAt(g, pc[g])
+
+WantsWrite(l) == \E g \in G : LET a == AcqOf(g) IN a.m = "X" /\ a.l = l
+CanAcquire(g, l, m) ==
+  IF m = "X" THEN Free(l)
+  ELSE /\ lk[l].w = None
+       /\ (WriterPref /\ l[1] \in {"statesLock", "db"}) => ~WantsWrite(l)
+
+\* a db section entered after db.Close of that user ("sql: database is closed")
 DbUse(l) == afterClose' = (afterClose \/ (l[1] = "db" /\ l[2] # NoUser /\ dbClosed[l[2]]))
 
+\* pure release steps: pc -> [l, to (set of next pcs)]
+NoRel == [l |-> None, to |-> {}]
+RelAt(g, p) ==
+  LET k == g[1]  id == g[2] IN
+  CASE k = "h" /\ p = "H.caps.3" -> [l |-> IF FixCapsOrder THEN CapsLock(id) ELSE UserLock(id), to |-> {"H.caps.4"}]
+    [] k = "h" /\ p = "H.caps.4" -> [l |-> IF FixCapsOrder THEN UserLock(id) ELSE CapsLock(id), to |-> {"H.fin"}]
+    [] k = "h" /\ p = "H.login.rc" -> [l |-> CapsLock(id), to |-> {"H.login.ru"}]
+    [] k = "h" /\ p = "H.login.ru" -> [l |-> UserLock(id), to |-> {"H.fin"}]
+    [] k = "h" /\ p = "H.login.rul" -> [l |-> UsersLock, to |-> {"H.login.ev"}]
+    [] k = "h" /\ p = "H.cmd.ru" -> [l |-> UserLock(id), to |-> {"H.fin"}]
+    [] k = "h" /\ p = "H.R.rel" -> [l |-> DB(UOf(id)), to |-> SecNext(id, "R")]
+    [] k = "h" /\ p = "H.W.rel" -> [l |-> DB(UOf(id)), to |-> SecNext(id, "W")]
+    [] k = "h" /\ p = "H.Q.rel" -> [l |-> DB(UOf(id)), to |-> SecNext(id, "Q")]
+    [] k = "loop" /\ p = "RS.R.rel" -> [l |-> DB(UOf(id)), to |-> {"RS.sl.acq"}]
+    [] k = "loop" /\ p = "RS.W.rel" -> [l |-> DB(UOf(id)), to |-> {"RS.close"}]
+    [] k = "upd" /\ p = "U.R.rel" -> [l |-> DB(id), to |-> {"U.W.acq"}]
+    [] k = "upd" /\ p = "U.W.rel" -> [l |-> DB(id), to |-> {"U.sl.acq"}]
+    [] OTHER -> NoRel
+
+RelOf(g) == RelAt(g, pc[g])
+
 AcquireStep(g) ==
-  LET a == Want(g) IN
+  LET a == AcqOf(g) IN
   /\ a.m # "-"
   /\ CanAcquire(g, a.l, a.m)
-  /\ lk' = Locked(a.l, g, a.m)
-  /\ Go(g, a.to)
+  /\ \E t \in a.to :
+       LET r == RelAt(g, t) IN
+       IF Coarse /\ r.to # {} /\ r.l = a.l
+         THEN lk' = lk /\ \E t2 \in r.to : Go(g, t2)          \* the whole section at once
+         ELSE lk' = Locked(a.l, g, a.m) /\ Go(g, t)
   /\ DbUse(a.l)
   /\ SetLab(g, "acq", ModeName(a.l, a.m))
-  /\ UNCHANGED <<wg, chan, listener, backlog, accHand, cli, inbox, infl, sent, srvClosed, cur, ip, mode, sstate,
-                 userIn, states, dbClosed, qItems, qChan, qClosed, connQ, fwdHeld, submitted, closing, touches>>
-
-\* pure release steps: pc -> [l, to]
-RelOf(g) ==
-  LET k == g[1]  id == g[2]  p == pc[g] IN
-  CASE k = "h" /\ p = "H.caps.3" -> [l |-> IF FixCapsOrder THEN CapsLock(id) ELSE UserLock(id), to |-> "H.caps.4"]
-    [] k = "h" /\ p = "H.caps.4" -> [l |-> IF FixCapsOrder THEN UserLock(id) ELSE CapsLock(id), to |-> "H.fin"]
-    [] k = "h" /\ p = "H.login.rc" -> [l |-> CapsLock(id), to |-> "H.login.ru"]
-    [] k = "h" /\ p = "H.login.ru" -> [l |-> UserLock(id), to |-> "H.fin"]
-    [] k = "h" /\ p = "H.login.rul" -> [l |-> UsersLock, to |-> "H.login.ev"]
-    [] k = "h" /\ p = "H.cmd.ru" -> [l |-> UserLock(id), to |-> "H.fin"]
-    [] k = "h" /\ p = "H.R.rel" -> [l |-> DB(UOf(id)), to |-> "H.sec"]
-    [] k = "h" /\ p = "H.W.rel" -> [l |-> DB(UOf(id)), to |-> "H.sec"]
-    [] k = "h" /\ p = "H.Q.rel" -> [l |-> DB(UOf(id)), to |-> "H.sec"]
-    [] k = "loop" /\ p = "L.logout.rel" -> [l |-> CapsLock(id), to |-> "L.logout.ru"]
-    [] k = "loop" /\ p = "L.logout.ru" -> [l |-> UserLock(id), to |-> "L.exit"]
-    [] k = "loop" /\ p = "RS.R.rel" -> [l |-> DB(UOf(id)), to |-> "RS.sl.acq"]
-    [] k = "loop" /\ p = "RS.W.rel" -> [l |-> DB(UOf(id)), to |-> "RS.close"]
-    [] k = "upd" /\ p = "U.R.rel" -> [l |-> DB(id), to |-> "U.W.acq"]
-    [] k = "upd" /\ p = "U.W.rel" -> [l |-> DB(id), to |-> "U.sl.acq"]
-    [] OTHER -> [l |-> None, to |-> "-"]
+  /\ UNCHANGED <<wg, chan, listener, backlog, accHand, cli, inbox, infl, sent, srvClosed, cur, mode, sstate,
+                 userIn, states, dbClosed, qItems, qChan, qClosed, connQ, fwdHeld, submitted, arg, touches>>
 
 ReleaseStep(g) ==
   LET r == RelOf(g) IN
-  /\ r.to # "-"
+  /\ r.to # {}
   /\ lk' = Unlocked(r.l, g)
-  /\ Go(g, r.to)
+  /\ \E t \in r.to : Go(g, t)
   /\ SetLab(g, "rel", r.l[1])
   /\ UNCHANGED rest
 
 -----------------------------------------------------------------------------
-\* channel helpers
 Closed(c) == c \in chan
 Close(c) == chan' = chan \cup {c}
 ConnDown(s) == cli[s] = "gone" \/ srvClosed[s]
-
 Complete(s) == infl' = [infl EXCEPT ![s] = FALSE]
-
 Enqueue(T) == qItems' = [s \in Sessions |-> IF s \in T /\ ~qClosed[s] THEN qItems[s] + 1 ELSE qItems[s]]
-
 Touch(k, who) == touches' = touches \cup {<<k, who>>}
 
 -----------------------------------------------------------------------------
 \* acc: server.go:newConnCh   { for { conn, err := l.Accept(); if err != nil { close(connCh); return }; connCh <- conn } }
+AccUnch == <<lk, wg, listener, cli, inbox, infl, sent, cur, mode, sstate, userIn, states, dbClosed,
+             qItems, qChan, qClosed, connQ, fwdHeld, submitted, arg, touches, afterClose>>
 AccStep ==
   \/ /\ pc[Acc] = "A.accept" /\ backlog # {} /\ listener = "open"
      /\ \E s \in backlog : backlog' = backlog \ {s} /\ accHand' = s
-     /\ Go(Acc, "A.send") /\ NoLab
-     /\ UNCHANGED <<lk, wg, chan, listener, cli, inbox, infl, sent, srvClosed, cur, ip, mode, sstate, userIn, states, dbClosed,
-                    qItems, qChan, qClosed, connQ, fwdHeld, submitted, closing, touches, afterClose>>
+     /\ Go(Acc, "A.send") /\ NoLab /\ UNCHANGED <<chan, srvClosed>> /\ UNCHANGED AccUnch
   \/ /\ pc[Acc] = "A.accept" /\ listener = "closed"
      /\ Close(<<"connCh", "-">>) /\ Go(Acc, "end") /\ SetLab(Acc, "go.end", "accept")
-     /\ UNCHANGED <<lk, wg, listener, backlog, accHand, cli, inbox, infl, sent, srvClosed, cur, ip, mode, sstate, userIn, states,
-                    dbClosed, qItems, qChan, qClosed, connQ, fwdHeld, submitted, closing, touches, afterClose>>
+     /\ UNCHANGED <<backlog, accHand, srvClosed>> /\ UNCHANGED AccUnch
   \* repaired design only: select { case connCh <- conn: ; case <-serveDoneCh: conn.Close(); return }
   \/ /\ pc[Acc] = "A.send" /\ FixAcceptSelect /\ Closed(<<"serveDone", "-">>)
      /\ srvClosed' = [srvClosed EXCEPT ![accHand] = TRUE] /\ accHand' = "-"
      /\ Close(<<"connCh", "-">>) /\ Go(Acc, "end") /\ SetLab(Acc, "go.end", "accept")
-     /\ UNCHANGED <<lk, wg, listener, backlog, cli, inbox, infl, sent, cur, ip, mode, sstate, userIn, states,
-                    dbClosed, qItems, qChan, qClosed, connQ, fwdHeld, submitted, closing, touches, afterClose>>
+     /\ UNCHANGED backlog /\ UNCHANGED AccUnch
 
-\* srv: server.go:serve   select { <-serveDoneCh: return (deferred conn.Close() of every accepted conn) ; conn := <-connCh: connWG.Go(session) }
-\*      the session goroutines are NOT waited for (connWG is never waited on); serveWG.Done when serve returns (Serve: serveWG.Go)
+\* srv: server.go:Serve { serveWG.Go(serve) } ; serve { for { select { <-serveDoneCh: return ; conn, ok := <-connCh: !ok -> return;
+\*        defer conn.Close(); connWG.Go(func() { addSession; session.Serve; removeSession }) } } }
+\*      the deferred conn.Close() of every accepted connection runs when serve returns; the session goroutines are not waited for
+SrvUnch == <<lk, listener, backlog, cli, inbox, infl, sent, cur, mode, sstate, userIn, states, dbClosed,
+             qItems, qChan, qClosed, connQ, fwdHeld, submitted, arg, touches, afterClose>>
 SrvStep ==
-  \/ /\ pc[Srv] = "S.sel" /\ Closed(<<"serveDone", "-">>)
+  \/ /\ pc[Srv] = "S.sel" /\ (Closed(<<"serveDone", "-">>) \/ (Closed(<<"connCh", "-">>) /\ pc[Acc] = "end"))
      /\ srvClosed' = [s \in Sessions |-> srvClosed[s] \/ pc[Loop(s)] # "off"]
      /\ wg' = [wg EXCEPT !.serveWG = @ - 1]
      /\ Go(Srv, "end") /\ SetLab(Srv, "wg.done", "serveWG")
-     /\ UNCHANGED <<lk, chan, listener, backlog, accHand, cli, inbox, infl, sent, cur, ip, mode, sstate, userIn, states,
-                    dbClosed, qItems, qChan, qClosed, connQ, fwdHeld, submitted, closing, touches, afterClose>>
-  \/ /\ pc[Srv] = "S.sel" /\ pc[Acc] = "A.send"
-     /\ LET s == accHand IN
-        /\ pc' = [pc EXCEPT ![Acc] = "A.accept", ![Loop(s)] = "L.start", ![Evp(s)] = "E.run"]
-        /\ SetLab(Loop(s), "go.start", "session")
+     /\ UNCHANGED <<chan, accHand>> /\ UNCHANGED SrvUnch
+  \/ /\ pc[Srv] = "S.sel" /\ pc[Acc] = "A.send"     \* the session goroutine greets and starts its command reader
+     /\ pc' = [pc EXCEPT ![Acc] = "A.accept", ![Loop(accHand)] = "L.sel", ![Rd(accHand)] = "R.read"]
+     /\ SetLab(Loop(accHand), "go.start", "session")
      /\ accHand' = "-"
-     /\ UNCHANGED <<lk, wg, chan, listener, backlog, cli, inbox, infl, sent, srvClosed, cur, ip, mode, sstate, userIn, states,
-                    dbClosed, qItems, qChan, qClosed, connQ, fwdHeld, submitted, closing, touches, afterClose>>
-  \/ /\ pc[Srv] = "S.sel" /\ Closed(<<"connCh", "-">>) /\ pc[Acc] = "end"
-     /\ srvClosed' = [s \in Sessions |-> srvClosed[s] \/ pc[Loop(s)] # "off"]
-     /\ wg' = [wg EXCEPT !.serveWG = @ - 1]
-     /\ Go(Srv, "end") /\ SetLab(Srv, "wg.done", "serveWG")
-     /\ UNCHANGED <<lk, chan, listener, backlog, accHand, cli, inbox, infl, sent, cur, ip, mode, sstate, userIn, states,
-                    dbClosed, qItems, qChan, qClosed, connQ, fwdHeld, submitted, closing, touches, afterClose>>
+     /\ UNCHANGED <<wg, chan, srvClosed>> /\ UNCHANGED SrvUnch
 
 -----------------------------------------------------------------------------
-\* rd(s): command.go:startCommandReader
-\*   for { cmd := parser.Parse() (blocks in conn.Read; a literal: send continuation, read on);
-\*         on a read error: return (deferred close(cmdCh));  select { cmdCh <- cmd ; <-ctx.Done(): return } }
+\* rd(s): command.go:startCommandReader { defer close(cmdCh)
+\*   for { cmd, err := parser.Parse() (conn.Read; a literal: send the continuation, read on); a read error: return;
+\*         select { cmdCh <- cmd ; <-ctx.Done(): return } } }
+RdUnch == <<lk, wg, listener, backlog, accHand, cli, infl, sent, srvClosed, mode, sstate, userIn, states,
+            dbClosed, qItems, qChan, qClosed, connQ, fwdHeld, submitted, arg, touches, afterClose>>
 RdStep(s) ==
   LET g == Rd(s) IN
   \/ /\ pc[g] = "R.read" /\ inbox[s] \notin {"none", "litdata"} /\ ~srvClosed[s]
      /\ cur' = [cur EXCEPT ![s] = inbox[s]] /\ inbox' = [inbox EXCEPT ![s] = "none"]
-     /\ Go(g, IF inbox[s] = "lit" THEN "R.lit" ELSE "R.send") /\ NoLab
-     /\ UNCHANGED <<lk, wg, chan, listener, backlog, accHand, cli, infl, sent, srvClosed, ip, mode, sstate, userIn, states,
-                    dbClosed, qItems, qChan, qClosed, connQ, fwdHeld, submitted, closing, touches, afterClose>>
+     /\ Go(g, IF inbox[s] = "lit" THEN "R.lit" ELSE "R.send") /\ NoLab /\ UNCHANGED chan /\ UNCHANGED RdUnch
   \/ /\ pc[g] = "R.lit" /\ inbox[s] = "litdata" /\ ~srvClosed[s]      \* mid-literal: the rest arrived
-     /\ inbox' = [inbox EXCEPT ![s] = "none"] /\ Go(g, "R.send") /\ NoLab
-     /\ UNCHANGED <<lk, wg, chan, listener, backlog, accHand, cli, infl, sent, srvClosed, cur, ip, mode, sstate, userIn, states,
-                    dbClosed, qItems, qChan, qClosed, connQ, fwdHeld, submitted, closing, touches, afterClose>>
-  \/ /\ pc[g] \in {"R.read", "R.lit"} /\ (srvClosed[s] \/ (cli[s] = "gone" /\ inbox[s] \in {"none", "litdata"} \/ (cli[s] = "gone" /\ pc[g] = "R.lit")))
-     /\ Close(<<"cmdCh", s>>) /\ Go(g, "end") /\ SetLab(g, "ch.close", "cmdCh")
-     /\ UNCHANGED <<lk, wg, listener, backlog, accHand, cli, inbox, infl, sent, srvClosed, cur, ip, mode, sstate, userIn, states,
-                    dbClosed, qItems, qChan, qClosed, connQ, fwdHeld, submitted, closing, touches, afterClose>>
+     /\ inbox' = [inbox EXCEPT ![s] = "none"] /\ Go(g, "R.send") /\ NoLab /\ UNCHANGED <<chan, cur>> /\ UNCHANGED RdUnch
+  \/ /\ pc[g] \in {"R.read", "R.lit"}   \* conn.Read fails: closed by the server, or by the client after all it sent was read
+     /\ \/ srvClosed[s]
+        \/ cli[s] = "gone" /\ ((pc[g] = "R.read" /\ inbox[s] = "none") \/ (pc[g] = "R.lit" /\ inbox[s] # "litdata"))
+     /\ Close(<<"cmdCh", s>>) /\ Go(g, "end") /\ SetLab(g, "ch.close", "cmdCh") /\ UNCHANGED <<inbox, cur>> /\ UNCHANGED RdUnch
   \/ /\ pc[g] = "R.send" /\ Closed(<<"ctx", s>>)
-     /\ Close(<<"cmdCh", s>>) /\ Go(g, "end") /\ SetLab(g, "ch.close", "cmdCh")
-     /\ UNCHANGED <<lk, wg, listener, backlog, accHand, cli, inbox, infl, sent, srvClosed, cur, ip, mode, sstate, userIn, states,
-                    dbClosed, qItems, qChan, qClosed, connQ, fwdHeld, submitted, closing, touches, afterClose>>
+     /\ Close(<<"cmdCh", s>>) /\ Go(g, "end") /\ SetLab(g, "ch.close", "cmdCh") /\ UNCHANGED <<inbox, cur>> /\ UNCHANGED RdUnch
 
 -----------------------------------------------------------------------------
-\* loop(s): session.go:Serve  { defer s.done(ctx); defer s.handleWG.Wait(); greet; serve }
-\*          session.go:serve  { ctx, cancel; defer cancel(); cmdCh := startCommandReader; for { select {
-\*               update := <-state.GetStateUpdatesCh(): state.ApplyUpdate
-\*               res, ok := <-cmdCh: !ok -> return; Logout -> handleLogout, return; Idle -> handleIdle; default -> handleOther, drain respCh
-\*               <-state.Done(): return } } }
+\* loop(s): session.go:Serve { defer s.done(ctx); defer s.handleWG.Wait(); greet; serve }
+\*          session.go:serve { ctx, cancel := WithCancel; defer cancel(); cmdCh := startCommandReader; for { select {
+\*             update := <-state.GetStateUpdatesCh(): state.ApplyUpdate
+\*             res, ok := <-cmdCh: !ok -> return; Logout -> handleLogout, return; Idle -> handleIdle; default -> handleOther, range respCh
+\*             <-state.Done(): return } } }
 HStart(k) == CASE k = "caps" -> "H.caps.1" [] k = "login" -> "H.login.u" [] k \in {"auth", "sel", "lit"} -> "H.cmd.u"
                [] k = "noop" -> "H.noop" [] OTHER -> "H.fin"
 
-LoopUnch == <<listener, backlog, accHand, cli, inbox, sent, userIn, dbClosed, connQ, fwdHeld, submitted, closing, afterClose>>
+LoopUnch == <<listener, backlog, accHand, cli, inbox, sent, userIn, dbClosed, connQ, fwdHeld, submitted, arg, afterClose>>
+\* leaving serve: the deferred cancel() runs before Serve's deferred handleWG.Wait()
+\* (Coarse: when no handler is running, Wait returns at once and done()'s close(eventCh) follows: one step)
+AfterWait(s) == IF sstate[s] = NoUser \/ Bug = "doneNoRelease" THEN "L.connclose" ELSE "RS.R.acq"
+Leave(g, s) == IF Coarse /\ wg.handleWG[s] = 0
+                 THEN Go(g, AfterWait(s)) /\ chan' = chan \cup {<<"ctx", s>>, <<"eventCh", s>>}
+                 ELSE Go(g, "L.hwait") /\ chan' = chan \cup {<<"ctx", s>>}
 
 LoopStep(s) ==
   LET g == Loop(s)  u == sstate[s] IN
-  \* greet + startCommandReader
-  \/ /\ pc[g] = "L.start"
-     /\ Go2(g, "L.sel", Rd(s), "R.read") /\ SetLab(Rd(s), "go.start", "reader")
-     /\ UNCHANGED <<lk, wg, chan, infl, srvClosed, cur, ip, mode, sstate, states, qItems, qChan, qClosed, touches>> /\ UNCHANGED LoopUnch
-  \* select: an update from the state's queue channel (both in the main loop and inside handleIdle)
+  \* select: an update from the state's queue channel (in the main loop and inside handleIdle); update.Filter(state) may drop it
   \/ /\ pc[g] \in {"L.sel", "L.idle"} /\ u # NoUser /\ qChan[s] > 0
      /\ qChan' = [qChan EXCEPT ![s] = @ - 1]
-     /\ \/ Go(g, "L.apply.acq") /\ Touch("loop", "own")                \* update.Filter(state) passed
-        \/ Go(g, pc[g]) /\ Touch("loop", "own")                        \* filtered out: no transaction
-     /\ SetLab(g, "ch.recv", "updateQueue")
-     /\ UNCHANGED <<lk, wg, chan, infl, srvClosed, cur, ip, mode, sstate, states, qItems, qClosed>> /\ UNCHANGED LoopUnch
-  \* ApplyUpdate inside db.Write: update.Apply -> PushResponder; while idling every response goes to idleCh (unbuffered)
-  \/ /\ pc[g] = "L.apply.in" /\ mode[s] = "idle" /\ pc[Idl(s)] = "I.recv"
-     /\ Go2(g, "L.apply.in", Idl(s), "I.write") /\ SetLab(g, "ch.send", "idleCh")
-     /\ UNCHANGED <<lk, wg, chan, infl, srvClosed, cur, ip, mode, sstate, states, qItems, qChan, qClosed, touches>> /\ UNCHANGED LoopUnch
-  \/ /\ pc[g] = "L.apply.in"
+     /\ (Go(g, "L.apply.acq") \/ Go(g, pc[g]))
+     /\ Touch("loop", "own") /\ SetLab(g, "ch.recv", "updateQueue")
+     /\ UNCHANGED <<lk, wg, chan, infl, srvClosed, cur, mode, sstate, states, qItems, qClosed>> /\ UNCHANGED LoopUnch
+  \* ApplyUpdate inside db.Write: update.Apply -> PushResponder; while idling every response goes to idleCh (unbuffered;
+  \* the IDLE sender takes it and writes it to the connection)
+  \/ /\ pc[g] = "L.apply.in" /\ mode[s] = "idle" /\ ~Closed(<<"idleCh", s>>)
+     /\ Go(g, "L.apply.out") /\ SetLab(g, "ch.send", "idleCh")
+     /\ UNCHANGED <<lk, wg, chan, infl, srvClosed, cur, mode, sstate, states, qItems, qChan, qClosed, touches>> /\ UNCHANGED LoopUnch
+  \/ /\ pc[g] \in {"L.apply.in", "L.apply.out"}
      /\ lk' = Unlocked(DB(u), g) /\ Go(g, IF mode[s] = "idle" THEN "L.idle" ELSE "L.sel") /\ SetLab(g, "rel", "db")
-     /\ UNCHANGED <<wg, chan, infl, srvClosed, cur, ip, mode, sstate, states, qItems, qChan, qClosed, touches>> /\ UNCHANGED LoopUnch
+     /\ UNCHANGED <<wg, chan, infl, srvClosed, cur, mode, sstate, states, qItems, qChan, qClosed, touches>> /\ UNCHANGED LoopUnch
   \* select: a command from the reader (rendezvous on the unbuffered cmdCh)
   \/ /\ pc[g] = "L.sel" /\ pc[Rd(s)] = "R.send"
      /\ LET k == cur[s] IN
-        CASE k = "logout" -> /\ Go2(g, "L.logout.u", Rd(s), "R.read") /\ UNCHANGED <<wg, infl>>
-          [] k = "idle" /\ u # NoUser -> /\ Go2(g, "L.idle.acq", Rd(s), "R.read") /\ UNCHANGED <<wg, infl>>
-          [] k \in {"done"} \/ (k = "idle" /\ u = NoUser) ->       \* parse error -> BAD / ErrNotAuthenticated -> NO
-               /\ Go2(g, "L.sel", Rd(s), "R.read") /\ Complete(s) /\ UNCHANGED wg
-          [] OTHER -> /\ pc' = [pc EXCEPT ![g] = "L.wait", ![Rd(s)] = "R.read", ![H(s)] = HStart(k)]
-                      /\ wg' = [wg EXCEPT !.handleWG[s] = @ + 1] /\ UNCHANGED infl
+        CASE k = "logout" -> /\ Go2(g, "L.logout.u", Rd(s), "R.read") /\ UNCHANGED <<wg, infl, cur>>
+          [] k = "idle" /\ u # NoUser -> /\ Go2(g, "L.idle.acq", Rd(s), "R.read") /\ UNCHANGED <<wg, infl, cur>>
+          [] k = "done" \/ (k = "idle" /\ u = NoUser) ->       \* parse error -> BAD / ErrNotAuthenticated -> NO
+               /\ Go2(g, "L.sel", Rd(s), "R.read") /\ Complete(s) /\ cur' = [cur EXCEPT ![s] = "none"] /\ UNCHANGED wg
+          [] OTHER -> /\ pc' = [pc EXCEPT ![g] = "L.wait", ![Rd(s)] = "R.read", ![H(s)] = HStart(k)]   \* handleWG.Go
+                      /\ wg' = [wg EXCEPT !.handleWG[s] = @ + 1] /\ UNCHANGED <<infl, cur>>
      /\ SetLab(g, "ch.recv", "cmdCh")
-     /\ UNCHANGED <<lk, chan, srvClosed, cur, ip, mode, sstate, states, qItems, qChan, qClosed, touches>> /\ UNCHANGED LoopUnch
-  \* for res := range respCh: the handler closed respCh
+     /\ UNCHANGED <<lk, chan, srvClosed, mode, sstate, states, qItems, qChan, qClosed, touches>> /\ UNCHANGED LoopUnch
+  \* for res := range respCh: the handler closed respCh; or res.Send failed (connection down) while the handler may still run:
+  \* return fmt.Errorf("failed to send response to client") (a helper goroutine drains respCh)
   \/ /\ pc[g] = "L.wait" /\ pc[H(s)] \in {"off", "end"}
-     /\ \/ Go(g, "L.sel")
-        \/ ConnDown(s) /\ Go(g, "L.exit")       \* res.Send failed: return fmt.Errorf("failed to send response to client")
-     /\ Complete(s) /\ NoLab
-     /\ UNCHANGED <<lk, wg, chan, srvClosed, cur, ip, mode, sstate, states, qItems, qChan, qClosed, touches>> /\ UNCHANGED LoopUnch
+     /\ Go(g, "L.sel") /\ Complete(s) /\ cur' = [cur EXCEPT ![s] = "none"] /\ NoLab
+     /\ UNCHANGED <<lk, wg, chan, srvClosed, mode, sstate, states, qItems, qChan, qClosed, touches>> /\ UNCHANGED LoopUnch
+  \/ /\ pc[g] = "L.wait" /\ ConnDown(s)
+     /\ Leave(g, s) /\ Complete(s) /\ NoLab
+     /\ UNCHANGED <<lk, wg, srvClosed, cur, mode, sstate, states, qItems, qChan, qClosed, touches>> /\ UNCHANGED LoopUnch
   \* select: cmdCh closed / state.Done()
   \/ /\ pc[g] = "L.sel" /\ (Closed(<<"cmdCh", s>>) \/ (u # NoUser /\ Closed(<<"doneCh", s>>)))
-     /\ Go(g, "L.exit") /\ NoLab
-     /\ UNCHANGED <<lk, wg, chan, infl, srvClosed, cur, ip, mode, sstate, states, qItems, qChan, qClosed, touches>> /\ UNCHANGED LoopUnch
-  \* handle_logout.go:handleLogout: BYE + OK written while both locks are held; then serve returns
-  \/ /\ pc[g] = "L.logout.rel" /\ infl[s]
-     /\ Complete(s) /\ Go(g, "L.logout.rel") /\ NoLab
-     /\ UNCHANGED <<lk, wg, chan, srvClosed, cur, ip, mode, sstate, states, qItems, qChan, qClosed, touches>> /\ UNCHANGED LoopUnch
-  \* handle_idle.go:handleIdle -> state.go:Idle: beginIdle (flushResponses: db.Write; idleCh = make) ; go IDLE sender ; "+" continuation
+     /\ Leave(g, s) /\ NoLab
+     /\ UNCHANGED <<lk, wg, infl, srvClosed, cur, mode, sstate, states, qItems, qChan, qClosed, touches>> /\ UNCHANGED LoopUnch
+  \* handle_logout.go:handleLogout: BYE and the tagged OK are written while both locks are held
+  \/ /\ pc[g] = "L.logout.rel"
+     /\ Complete(s) /\ lk' = Unlocked(CapsLock(s), g) /\ Go(g, "L.logout.ru") /\ SetLab(g, "rel", "capsLock")
+     /\ UNCHANGED <<wg, chan, srvClosed, cur, mode, sstate, states, qItems, qChan, qClosed, touches>> /\ UNCHANGED LoopUnch
+  \/ /\ pc[g] = "L.logout.ru"       \* userLock released; serve returns: deferred cancel()
+     /\ lk' = Unlocked(UserLock(s), g) /\ Leave(g, s) /\ SetLab(g, "rel", "userLock")
+     /\ UNCHANGED <<wg, infl, srvClosed, cur, mode, sstate, states, qItems, qChan, qClosed, touches>> /\ UNCHANGED LoopUnch
+  \* handle_idle.go:handleIdle -> state.go:Idle: beginIdle (flushResponses: db.Write; idleCh = make); go IDLE sender; "+" continuation
   \/ /\ pc[g] = "L.idle.begin"
-     /\ lk' = Unlocked(DB(u), g)
-     /\ Go2(g, "L.idle", Idl(s), "I.recv") /\ mode' = [mode EXCEPT ![s] = "idle"]
+     /\ lk' = Unlocked(DB(u), g) /\ Go(g, "L.idle") /\ mode' = [mode EXCEPT ![s] = "idle"]
      /\ chan' = chan \ {<<"idleCh", s>>}
-     /\ Complete(s) /\ Touch("loop", "own") /\ SetLab(g, "rel", "db")
-     /\ UNCHANGED <<wg, srvClosed, cur, ip, sstate, states, qItems, qChan, qClosed>> /\ UNCHANGED LoopUnch
+     /\ Complete(s) /\ cur' = [cur EXCEPT ![s] = "none"] /\ Touch("loop", "own") /\ SetLab(g, "rel", "db")
+     /\ UNCHANGED <<wg, srvClosed, sstate, states, qItems, qChan, qClosed>> /\ UNCHANGED LoopUnch
   \* handleIdle's select: a command (DONE -> OK, anything else -> BAD), cmdCh closed, state.Done(): return; deferred endIdle: close(idleCh)
   \/ /\ pc[g] = "L.idle"
-     /\ \/ /\ pc[Rd(s)] = "R.send" /\ Go2(g, "L.sel", Rd(s), "R.read") /\ Complete(s)
-        \/ /\ (Closed(<<"cmdCh", s>>) \/ Closed(<<"doneCh", s>>)) /\ Go(g, "L.sel") /\ UNCHANGED infl
+     /\ \/ /\ pc[Rd(s)] = "R.send" /\ Go2(g, "L.sel", Rd(s), "R.read") /\ Complete(s) /\ cur' = [cur EXCEPT ![s] = "none"]
+        \/ /\ (Closed(<<"cmdCh", s>>) \/ Closed(<<"doneCh", s>>)) /\ Go(g, "L.sel") /\ UNCHANGED <<infl, cur>>
      /\ mode' = [mode EXCEPT ![s] = "normal"]
      /\ chan' = IF Bug = "idleNotStopped" THEN chan ELSE chan \cup {<<"idleCh", s>>}
      /\ SetLab(g, "ch.close", "idleCh")
-     /\ UNCHANGED <<lk, wg, srvClosed, cur, ip, sstate, states, qItems, qChan, qClosed, touches>> /\ UNCHANGED LoopUnch
-  \* serve returns: deferred cancel()
-  \/ /\ pc[g] = "L.exit"
-     /\ Close(<<"ctx", s>>) /\ Go(g, "L.hwait") /\ NoLab
-     /\ UNCHANGED <<lk, wg, infl, srvClosed, cur, ip, mode, sstate, states, qItems, qChan, qClosed, touches>> /\ UNCHANGED LoopUnch
-  \* Serve: deferred s.handleWG.Wait()
+     /\ UNCHANGED <<lk, wg, srvClosed, sstate, states, qItems, qChan, qClosed, touches>> /\ UNCHANGED LoopUnch
+  \* Serve: deferred s.handleWG.Wait(); then session.go:done: close(s.eventCh); s.state != nil -> state.ReleaseState -> user.removeState
   \/ /\ pc[g] = "L.hwait" /\ wg.handleWG[s] = 0
-     /\ Go(g, "L.done") /\ SetLab(g, "wg.wait", "handleWG")
-     /\ UNCHANGED <<lk, wg, chan, infl, srvClosed, cur, ip, mode, sstate, states, qItems, qChan, qClosed, touches>> /\ UNCHANGED LoopUnch
-  \* session.go:done: close(s.eventCh); if s.state != nil { s.state.ReleaseState -> user.removeState }; conn.Close()
-  \/ /\ pc[g] = "L.done"
      /\ Close(<<"eventCh", s>>)
-     /\ Go(g, IF u = NoUser \/ Bug = "doneNoRelease" THEN "L.connclose" ELSE "RS.R.acq")
-     /\ SetLab(g, "ch.close", "eventCh")
-     /\ UNCHANGED <<lk, wg, infl, srvClosed, cur, ip, mode, sstate, states, qItems, qChan, qClosed, touches>> /\ UNCHANGED LoopUnch
-  \* user.go:removeState fn(): under statesLock W: other.HasMessage(...) of every other state (reads foreign snapshots), delete(user.states, id)
+     /\ Go(g, AfterWait(s))
+     /\ SetLab(g, "wg.wait", "handleWG")
+     /\ UNCHANGED <<lk, wg, infl, srvClosed, cur, mode, sstate, states, qItems, qChan, qClosed, touches>> /\ UNCHANGED LoopUnch
+  \* user.go:removeState fn() under statesLock W: other.HasMessage(...) of every other state (reads foreign snapshots); delete(user.states, id)
   \/ /\ pc[g] = "RS.sl.in"
      /\ states' = [states EXCEPT ![u] = @ \ {s}]
      /\ IF ~FixPeek /\ states[u] \ {s} # {} THEN Touch("loop", "foreign") ELSE UNCHANGED touches
      /\ IF Bug = "removeStateHoldsLock" THEN UNCHANGED lk ELSE lk' = Unlocked(StatesLock(u), g)
      /\ Go(g, "RS.W.acq") /\ SetLab(g, "rel", "statesLock")
-     /\ UNCHANGED <<wg, chan, infl, srvClosed, cur, ip, mode, sstate, qItems, qChan, qClosed>> /\ UNCHANGED LoopUnch
-  \* state.go:Close -> closeUpdateQueue: updatesQueue.Close() ; then the deferred statesWG.Done()
-  \/ /\ pc[g] = "RS.close"
+     /\ UNCHANGED <<wg, chan, infl, srvClosed, cur, mode, sstate, qItems, qChan, qClosed>> /\ UNCHANGED LoopUnch
+  \* state.go:Close -> closeUpdateQueue: updatesQueue.Close()
+  \* (Coarse: Close of the queue, statesWG.Done and conn.Close never block and only enable others: one step)
+  \/ /\ pc[g] = "RS.close" /\ ~Coarse
      /\ qClosed' = [qClosed EXCEPT ![s] = TRUE]
      /\ IF Bug = "removeStateHoldsLock" THEN lk' = Unlocked(StatesLock(u), g) ELSE UNCHANGED lk
      /\ Go(g, "RS.wgdone") /\ SetLab(g, "queue.close", "updateQueue")
-     /\ UNCHANGED <<wg, chan, infl, srvClosed, cur, ip, mode, sstate, states, qItems, qChan, touches>> /\ UNCHANGED LoopUnch
+     /\ UNCHANGED <<wg, chan, infl, srvClosed, cur, mode, sstate, states, qItems, qChan, touches>> /\ UNCHANGED LoopUnch
+  \/ /\ pc[g] = "RS.close" /\ Coarse
+     /\ qClosed' = [qClosed EXCEPT ![s] = TRUE]
+     /\ IF Bug = "removeStateHoldsLock" THEN lk' = Unlocked(StatesLock(u), g) ELSE UNCHANGED lk
+     /\ wg' = [wg EXCEPT !.statesWG[u] = @ - 1]
+     /\ srvClosed' = [srvClosed EXCEPT ![s] = TRUE] /\ infl' = [infl EXCEPT ![s] = FALSE]
+     /\ Go(g, "end") /\ NoLab
+     /\ UNCHANGED <<chan, cur, mode, sstate, states, qItems, qChan, touches>> /\ UNCHANGED LoopUnch
+  \* removeState's deferred statesWG.Done()
   \/ /\ pc[g] = "RS.wgdone"
      /\ wg' = [wg EXCEPT !.statesWG[u] = @ - 1]
      /\ Go(g, "L.connclose") /\ SetLab(g, "wg.done", "statesWG")
-     /\ UNCHANGED <<lk, chan, infl, srvClosed, cur, ip, mode, sstate, states, qItems, qChan, qClosed, touches>> /\ UNCHANGED LoopUnch
+     /\ UNCHANGED <<lk, chan, infl, srvClosed, cur, mode, sstate, states, qItems, qChan, qClosed, touches>> /\ UNCHANGED LoopUnch
+  \* done: s.conn.Close()
   \/ /\ pc[g] = "L.connclose"
      /\ srvClosed' = [srvClosed EXCEPT ![s] = TRUE] /\ infl' = [infl EXCEPT ![s] = FALSE]
      /\ Go(g, "end") /\ SetLab(g, "go.end", "session")
-     /\ UNCHANGED <<lk, wg, chan, cur, ip, mode, sstate, states, qItems, qChan, qClosed, touches>> /\ UNCHANGED LoopUnch
+     /\ UNCHANGED <<lk, wg, chan, cur, mode, sstate, states, qItems, qChan, qClosed, touches>> /\ UNCHANGED LoopUnch
 
 -----------------------------------------------------------------------------
 \* h(s): handle.go:handleOther { s.handleWG.Go(func() { defer close(resCh); s.handleCommand(...) }) }
 HUnch == <<chan, listener, backlog, accHand, cli, inbox, infl, sent, srvClosed, cur, mode, userIn, dbClosed, qChan, qClosed,
-           connQ, fwdHeld, submitted, closing, afterClose>>
-
-NextSec(s) ==   \* the pc of the handler's next db section
-  IF FreeSections THEN {"H.R.acq", "H.W.acq", "H.Q.acq", "H.secend"}
-  ELSE LET p == Prog(cur[s]) IN
-       IF ip[s] >= Len(p) THEN {"H.secend"}
-       ELSE {CASE p[ip[s] + 1] = "R" -> "H.R.acq" [] p[ip[s] + 1] = "W" -> "H.W.acq" [] OTHER -> "H.Q.acq"}
+           connQ, fwdHeld, submitted, afterClose>>
 
 HStep(s) ==
   LET g == H(s)  u == sstate[s] IN
-  \* handle_login.go:handleLogin after userLock, capsLock: already authenticated -> BAD
-  \/ /\ pc[g] = "H.login.chk"
-     /\ Go(g, IF u # NoUser THEN "H.login.rc" ELSE "H.login.ul") /\ NoLab
-     /\ UNCHANGED <<lk, wg, ip, sstate, states, qItems, touches>> /\ UNCHANGED HUnch
-  \* backend.go:GetState under usersLock: getUserID (loginLock; Authorize) -> no such user / wrong password: return err
+  \* backend.go:GetState under usersLock: getUserID (loginLock; connector.Authorize): unknown user / wrong password -> error
   \/ /\ pc[g] = "H.login.auth"
-     /\ \/ Go(g, "H.login.rul")                                                   \* refused
-        \/ \E v \in LoginTo[s] : userIn[v] /\ Go(g, "H.login.sl") /\ FALSE         \* see LoginNewState
+     /\ \/ Go(g, "H.login.rul") /\ UNCHANGED arg
+        \/ \E v \in LoginTo[s] : userIn[v] /\ arg' = [arg EXCEPT ![g] = v] /\ Go(g, "H.login.sl")
      /\ NoLab
-     /\ UNCHANGED <<lk, wg, ip, sstate, states, qItems, touches>> /\ UNCHANGED HUnch
-  \* user.go:newState: statesLock.Lock(); states[id] = NewState (starts the queue pump); statesWG.Add(1); Unlock
-  \/ /\ pc[g] = "H.login.auth"
-     /\ \E v \in LoginTo[s] :
-          /\ userIn[v] /\ Free(StatesLock(v))
-          /\ states' = [states EXCEPT ![v] = @ \cup {s}]
-          /\ wg' = [wg EXCEPT !.statesWG[v] = @ + 1]
-          /\ sstate' = [sstate EXCEPT ![s] = v]
-     /\ pc' = [pc EXCEPT ![g] = "H.login.rul", ![Pump(s)] = "P.pop"]
-     /\ SetLab(g, "wg.add", "statesWG")
-     /\ UNCHANGED <<lk, ip, qItems, touches>> /\ UNCHANGED HUnch
-  \* s.eventCh <- events.Login / LoginFailed (the publisher is always ready until eventCh is closed, which happens after handleWG.Wait)
+     /\ UNCHANGED <<lk, wg, sstate, states, qItems, touches>> /\ UNCHANGED HUnch
+  \* user.go:newState under statesLock W: states[id] = state.NewState (starts the queue pump); statesWG.Add(1)
+  \/ /\ pc[g] = "H.login.new"
+     /\ states' = [states EXCEPT ![arg[g]] = @ \cup {s}]
+     /\ wg' = [wg EXCEPT !.statesWG[arg[g]] = @ + 1]
+     /\ lk' = Unlocked(StatesLock(arg[g]), g)
+     /\ Go2(g, "H.login.rul", Pump(s), "P.pop")
+     /\ SetLab(g, "rel", "statesLock")
+     /\ UNCHANGED <<arg, sstate, qItems, touches>> /\ UNCHANGED HUnch
+  \* handle_login.go: s.state = state; s.eventCh <- events.Login / LoginFailed (unbuffered; the publisher ranges over eventCh
+  \* until done() closes it, which happens after handleWG.Wait)
   \/ /\ pc[g] = "H.login.ev"
      /\ ~Closed(<<"eventCh", s>>)
-     /\ Go(g, "H.login.rc") /\ NoLab
-     /\ UNCHANGED <<lk, wg, ip, sstate, states, qItems, touches>> /\ UNCHANGED HUnch
-  \* handle.go:handleAuthenticatedCommand after userLock: if s.state == nil { return ErrNotAuthenticated }
-  \/ /\ pc[g] = "H.cmd.chk"
-     /\ Go(g, IF u = NoUser THEN "H.cmd.ru" ELSE "H.sec") /\ ip' = [ip EXCEPT ![s] = 0] /\ NoLab
-     /\ UNCHANGED <<lk, wg, sstate, states, qItems, touches>> /\ UNCHANGED HUnch
-  \* handle_noop.go:handleNoop: no userLock; flush only when a state exists (and a mailbox is selected)
+     /\ sstate' = [sstate EXCEPT ![s] = arg[g]] /\ arg' = [arg EXCEPT ![g] = NoUser]
+     /\ Go(g, "H.login.rc") /\ SetLab(g, "ch.send", "eventCh")
+     /\ UNCHANGED <<lk, wg, states, qItems, touches>> /\ UNCHANGED HUnch
+  \* handle_noop.go:handleNoop: no userLock; flushes only when a mailbox is selected
   \/ /\ pc[g] = "H.noop"
-     /\ \/ Go(g, "H.fin") \/ (u # NoUser /\ Go(g, "H.sec"))
-     /\ ip' = [ip EXCEPT ![s] = 0] /\ NoLab
-     /\ UNCHANGED <<lk, wg, sstate, states, qItems, touches>> /\ UNCHANGED HUnch
-  \/ /\ pc[g] = "H.sec"
-     /\ \E n \in NextSec(s) : Go(g, n)
-     /\ ip' = [ip EXCEPT ![s] = @ + 1] /\ Touch("h", "own") /\ NoLab
-     /\ UNCHANGED <<lk, wg, sstate, states, qItems>> /\ UNCHANGED HUnch
-  \/ /\ pc[g] = "H.secend"
-     /\ Go(g, IF cur[s] = "noop" THEN "H.fin" ELSE "H.cmd.ru") /\ NoLab
-     /\ UNCHANGED <<lk, wg, ip, sstate, states, qItems, touches>> /\ UNCHANGED HUnch
-  \* state_user_interface_impl.go:QueueOrApplyStateUpdate inside the 2nd db.Write: forState (statesLock R):
+     /\ \/ Go(g, "H.fin") \/ (u # NoUser /\ \E n \in SecNext(s, "start") : Go(g, n))
+     /\ NoLab
+     /\ UNCHANGED <<lk, wg, arg, sstate, states, qItems, touches>> /\ UNCHANGED HUnch
+  \* state_user_interface_impl.go:QueueOrApplyStateUpdate inside the second db.Write: forState (statesLock R):
   \*   own state: update.Apply at once; every other state: state.QueueUpdates
   \/ /\ pc[g] = "H.Q.in"
-     /\ Enqueue(states[u] \ {s})
+     /\ Enqueue(states[u] \ {s}) /\ Touch("h", "own")
      /\ lk' = Unlocked(StatesLock(u), g) /\ Go(g, "H.Q.rel") /\ SetLab(g, "rel", "statesLock")
-     /\ UNCHANGED <<wg, ip, sstate, states, touches>> /\ UNCHANGED HUnch
+     /\ UNCHANGED <<wg, arg, sstate, states>> /\ UNCHANGED HUnch
   \* deferred close(resCh); handleWG.Done
   \/ /\ pc[g] = "H.fin"
      /\ wg' = [wg EXCEPT !.handleWG[s] = @ - 1] /\ Go(g, "end") /\ SetLab(g, "wg.done", "handleWG")
-     /\ UNCHANGED <<lk, ip, sstate, states, qItems, touches>> /\ UNCHANGED HUnch
+     /\ UNCHANGED <<lk, arg, sstate, states, qItems, touches>> /\ UNCHANGED HUnch
 
-\* idl(s): handle_idle.go:handleIdle closure { for res := range resCh { res.Send(s) } }
-IdlStep(s) ==
-  LET g == Idl(s) IN
-  \/ /\ pc[g] = "I.write" /\ Go(g, "I.recv") /\ NoLab /\ UNCHANGED <<lk>> /\ UNCHANGED rest
-  \/ /\ pc[g] = "I.recv" /\ Closed(<<"idleCh", s>>) /\ Go(g, "end") /\ SetLab(g, "go.end", "idle") /\ UNCHANGED <<lk>> /\ UNCHANGED rest
-
-\* evp(s): server.go:newEventCh { for event := range eventCh { s.publish(event) } }   (publish never blocks: watcher.Send = Enqueue)
-EvpStep(s) ==
-  /\ pc[Evp(s)] = "E.run" /\ Closed(<<"eventCh", s>>)
-  /\ Go(Evp(s), "end") /\ SetLab(Evp(s), "go.end", "events") /\ UNCHANGED <<lk>> /\ UNCHANGED rest
-
-\* pump(s): async/queued_channel.go:NewQueuedChannel closure
-\*   for { item, ok := pop() (cond.Wait until items or closed; closed and empty -> !ok); if !ok { close(ch); return }
-\*         select { ch <- item ; <-stopCh: return } }        Close() leaves stopCh open; CloseAndDiscardQueued() closes it
+\* pump(s): async/queued_channel.go:NewQueuedChannel closure { defer close(ch)
+\*   for { item, ok := pop() (cond.Wait until items or closed; closed and empty -> !ok); !ok -> return
+\*         select { ch <- item ; <-stopCh: return } } }      Close() leaves stopCh open; CloseAndDiscardQueued() closes it
+PumpUnch == <<lk, wg, chan, listener, backlog, accHand, cli, inbox, infl, sent, srvClosed, cur, mode, sstate, userIn, states,
+              dbClosed, qClosed, connQ, fwdHeld, submitted, arg, touches, afterClose>>
 PumpStep(s) ==
   LET g == Pump(s) IN
   \/ /\ pc[g] = "P.pop" /\ qItems[s] > 0
-     /\ qItems' = [qItems EXCEPT ![s] = @ - 1] /\ Go(g, "P.send") /\ NoLab
-     /\ UNCHANGED <<lk, wg, chan, listener, backlog, accHand, cli, inbox, infl, sent, srvClosed, cur, ip, mode, sstate, userIn, states,
-                    dbClosed, qChan, qClosed, connQ, fwdHeld, submitted, closing, touches, afterClose>>
+     /\ qItems' = [qItems EXCEPT ![s] = @ - 1] /\ Go(g, "P.send") /\ NoLab /\ UNCHANGED qChan /\ UNCHANGED PumpUnch
   \/ /\ pc[g] = "P.pop" /\ qItems[s] = 0 /\ qClosed[s]
-     /\ Go(g, "end") /\ SetLab(g, "go.end", "pump") /\ UNCHANGED <<lk>> /\ UNCHANGED rest
+     /\ Go(g, "end") /\ SetLab(g, "go.end", "pump") /\ UNCHANGED <<qItems, qChan>> /\ UNCHANGED PumpUnch
   \/ /\ pc[g] = "P.send" /\ qChan[s] < ChanCap
-     /\ qChan' = [qChan EXCEPT ![s] = @ + 1] /\ Go(g, "P.pop") /\ NoLab
-     /\ UNCHANGED <<lk, wg, chan, listener, backlog, accHand, cli, inbox, infl, sent, srvClosed, cur, ip, mode, sstate, userIn, states,
-                    dbClosed, qItems, qClosed, connQ, fwdHeld, submitted, closing, touches, afterClose>>
+     /\ qChan' = [qChan EXCEPT ![s] = @ + 1] /\ Go(g, "P.pop") /\ NoLab /\ UNCHANGED qItems /\ UNCHANGED PumpUnch
   \/ /\ pc[g] = "P.send" /\ FixQueueDiscard /\ qClosed[s]
-     /\ Go(g, "end") /\ SetLab(g, "go.end", "pump") /\ UNCHANGED <<lk>> /\ UNCHANGED rest
+     /\ Go(g, "end") /\ SetLab(g, "go.end", "pump") /\ UNCHANGED <<qItems, qChan>> /\ UNCHANGED PumpUnch
 
 -----------------------------------------------------------------------------
 \* fwd(u): update_injector.go:forward { defer { close(updatesCh); forwardWG.Done() }
 \*     for { select { update := <-connector.GetUpdates(): send(update) ; <-forwardQuitCh: return } } }
 \*   send { select { <-forwardQuitCh: return ; updatesCh <- update } }
+FwdUnch == <<lk, listener, backlog, accHand, cli, inbox, infl, sent, srvClosed, cur, mode, sstate, userIn, states,
+             dbClosed, qItems, qChan, qClosed, submitted, arg, touches, afterClose>>
 FwdStep(u) ==
   LET g == Fwd(u) IN
   \/ /\ pc[g] = "F.sel" /\ connQ[u] # <<>> /\ ~Closed(<<"forwardQuit", u>>)
      /\ fwdHeld' = [fwdHeld EXCEPT ![u] = Head(connQ[u])] /\ connQ' = [connQ EXCEPT ![u] = Tail(@)]
-     /\ Go(g, "F.send") /\ NoLab
-     /\ UNCHANGED <<lk, wg, chan, listener, backlog, accHand, cli, inbox, infl, sent, srvClosed, cur, ip, mode, sstate, userIn, states,
-                    dbClosed, qItems, qChan, qClosed, submitted, closing, touches, afterClose>>
-  \/ /\ pc[g] = "F.send" /\ Closed(<<"forwardQuit", u>>)      \* the update is dropped, nobody calls update.Done
-     /\ Go(g, "F.sel") /\ NoLab /\ UNCHANGED <<lk>> /\ UNCHANGED rest
+     /\ Go(g, "F.send") /\ NoLab /\ UNCHANGED <<wg, chan>> /\ UNCHANGED FwdUnch
+  \/ /\ pc[g] = "F.send" /\ Closed(<<"forwardQuit", u>>)      \* the update is dropped; nobody calls update.Done for it
+     /\ fwdHeld' = [fwdHeld EXCEPT ![u] = "none"]
+     /\ Go(g, "F.sel") /\ NoLab /\ UNCHANGED <<wg, chan, connQ>> /\ UNCHANGED FwdUnch
   \/ /\ pc[g] = "F.sel" /\ Closed(<<"forwardQuit", u>>)
      /\ Close(<<"updatesCh", u>>) /\ wg' = [wg EXCEPT !.forwardWG[u] = @ - 1]
-     /\ Go(g, "end") /\ SetLab(g, "wg.done", "forwardWG")
-     /\ UNCHANGED <<lk, listener, backlog, accHand, cli, inbox, infl, sent, srvClosed, cur, ip, mode, sstate, userIn, states,
-                    dbClosed, qItems, qChan, qClosed, connQ, fwdHeld, submitted, closing, touches, afterClose>>
+     /\ Go(g, "end") /\ SetLab(g, "wg.done", "forwardWG") /\ UNCHANGED <<connQ, fwdHeld>> /\ UNCHANGED FwdUnch
 
 \* upd(u): user.go:newUser closure { defer updateWG.Done(); for { select { update, ok := <-updateCh: !ok -> return; user.apply(update)
 \*                                                                          <-user.updateQuitCh: return } } }
-\*   connector_updates.go:apply*: [db.Read] ; userDBWrite: db.Write ; queueStateUpdate -> forState (statesLock R): state.QueueUpdates
-\*   applyMessageIDChanged: db.Write ; forState: state.UpdateMessageRemoteID - mutates the snapshots from this goroutine
+\*   connector_updates.go:apply*: [db.Read]; userDBWrite: db.Write; queueStateUpdate -> forState (statesLock R): state.QueueUpdates
+\*   applyMessageIDChanged: db.Write; forState: state.UpdateMessageRemoteID - mutates every snapshot from THIS goroutine
+UpdUnch == <<listener, backlog, accHand, cli, inbox, infl, sent, srvClosed, cur, mode, sstate, userIn, states,
+             dbClosed, qChan, qClosed, connQ, submitted, arg, afterClose>>
 UpdStep(u) ==
   LET g == Upd(u) IN
   \/ /\ pc[g] = "U.sel" /\ pc[Fwd(u)] = "F.send" /\ ~Closed(<<"forwardQuit", u>>)
-     /\ \/ Go2(g, "U.R.acq", Fwd(u), "F.sel") \/ Go2(g, "U.W.acq", Fwd(u), "F.sel")
-     /\ SetLab(g, "ch.recv", "updatesCh") /\ UNCHANGED <<lk>> /\ UNCHANGED rest
+     /\ (Go2(g, "U.R.acq", Fwd(u), "F.sel") \/ Go2(g, "U.W.acq", Fwd(u), "F.sel"))
+     /\ SetLab(g, "ch.recv", "updatesCh") /\ UNCHANGED <<lk, wg, chan, qItems, fwdHeld, touches>> /\ UNCHANGED UpdUnch
   \/ /\ pc[g] = "U.sel" /\ (Closed(<<"updateQuit", u>>) \/ Closed(<<"updatesCh", u>>))
      /\ wg' = [wg EXCEPT !.updateWG[u] = @ - 1] /\ Go(g, "end") /\ SetLab(g, "wg.done", "updateWG")
-     /\ UNCHANGED <<lk, chan, listener, backlog, accHand, cli, inbox, infl, sent, srvClosed, cur, ip, mode, sstate, userIn, states,
-                    dbClosed, qItems, qChan, qClosed, connQ, fwdHeld, submitted, closing, touches, afterClose>>
+     /\ UNCHANGED <<lk, chan, qItems, fwdHeld, touches>> /\ UNCHANGED UpdUnch
   \/ /\ pc[g] = "U.sl.in"
      /\ IF fwdHeld[u] = "idchg" /\ ~FixIDChanged
           THEN /\ (IF states[u] # {} THEN Touch("upd", "foreign") ELSE UNCHANGED touches) /\ UNCHANGED qItems
           ELSE /\ Enqueue(states[u]) /\ UNCHANGED touches
      /\ fwdHeld' = [fwdHeld EXCEPT ![u] = "none"]
      /\ lk' = Unlocked(StatesLock(u), g) /\ Go(g, "U.sel") /\ SetLab(g, "rel", "statesLock")
-     /\ UNCHANGED <<wg, chan, listener, backlog, accHand, cli, inbox, infl, sent, srvClosed, cur, ip, mode, sstate, userIn, states,
-                    dbClosed, qChan, qClosed, connQ, submitted, closing, afterClose>>
+     /\ UNCHANGED <<wg, chan>> /\ UNCHANGED UpdUnch
 
 -----------------------------------------------------------------------------
 \* user.close (user.go:close), executed by closer or rem(u) while holding usersLock:
-\*   close(updateQuitCh); updateWG.Wait(); updateInjector.Close (close(forwardQuitCh); forwardWG.Wait()); connector.Close();
+\*   close(updateQuitCh); updateWG.Wait(); updateInjector.Close { close(forwardQuitCh); forwardWG.Wait() }; connector.Close();
 \*   closeStates (statesLock R: state.SignalClose = close(doneCh) for every state); statesWG.Wait(); store.Close(); db.Close() (db lock W)
-KUnch == <<listener, backlog, accHand, cli, inbox, infl, sent, srvClosed, cur, ip, mode, sstate, states, qItems, qChan, qClosed,
+KUnch == <<listener, backlog, accHand, cli, inbox, infl, sent, srvClosed, cur, mode, sstate, states, qItems, qChan, qClosed,
            connQ, fwdHeld, submitted, touches, afterClose>>
 
 CloseUserStep(g) ==
-  LET u == closing[g]  back == IF g = Closer THEN "C.next" ELSE "X.rel" IN
+  LET u == arg[g]  back == IF g = Closer THEN "C.next" ELSE "X.rel" IN
   \/ /\ pc[g] = "K.quit" /\ Close(<<"updateQuit", u>>) /\ Go(g, "K.uwait") /\ SetLab(g, "ch.close", "updateQuitCh")
-     /\ UNCHANGED <<lk, wg, userIn, dbClosed, closing>> /\ UNCHANGED KUnch
+     /\ UNCHANGED <<lk, wg, userIn, dbClosed, arg>> /\ UNCHANGED KUnch
   \/ /\ pc[g] = "K.uwait" /\ wg.updateWG[u] = 0 /\ Go(g, "K.fquit") /\ SetLab(g, "wg.wait", "updateWG")
-     /\ UNCHANGED <<lk, wg, chan, userIn, dbClosed, closing>> /\ UNCHANGED KUnch
+     /\ UNCHANGED <<lk, wg, chan, userIn, dbClosed, arg>> /\ UNCHANGED KUnch
   \/ /\ pc[g] = "K.fquit" /\ Close(<<"forwardQuit", u>>) /\ Go(g, "K.fwait") /\ SetLab(g, "ch.close", "forwardQuitCh")
-     /\ UNCHANGED <<lk, wg, userIn, dbClosed, closing>> /\ UNCHANGED KUnch
+     /\ UNCHANGED <<lk, wg, userIn, dbClosed, arg>> /\ UNCHANGED KUnch
   \/ /\ pc[g] = "K.fwait" /\ wg.forwardWG[u] = 0 /\ Go(g, "K.cs.acq") /\ SetLab(g, "wg.wait", "forwardWG")
-     /\ UNCHANGED <<lk, wg, chan, userIn, dbClosed, closing>> /\ UNCHANGED KUnch
+     /\ UNCHANGED <<lk, wg, chan, userIn, dbClosed, arg>> /\ UNCHANGED KUnch
   \/ /\ pc[g] = "K.cs.in"
      /\ chan' = chan \cup {<<"doneCh", s>> : s \in states[u]}
      /\ lk' = Unlocked(StatesLock(u), g)
      /\ Go(g, IF Bug = "closeNoStatesWait" THEN "K.db.acq" ELSE "K.swait") /\ SetLab(g, "rel", "statesLock")
-     /\ UNCHANGED <<wg, userIn, dbClosed, closing>> /\ UNCHANGED KUnch
+     /\ UNCHANGED <<wg, userIn, dbClosed, arg>> /\ UNCHANGED KUnch
   \/ /\ pc[g] = "K.swait" /\ wg.statesWG[u] = 0 /\ Go(g, "K.db.acq") /\ SetLab(g, "wg.wait", "statesWG")
-     /\ UNCHANGED <<lk, wg, chan, userIn, dbClosed, closing>> /\ UNCHANGED KUnch
-  \/ /\ pc[g] = "K.db.in"
+     /\ UNCHANGED <<lk, wg, chan, userIn, dbClosed, arg>> /\ UNCHANGED KUnch
+  \/ /\ pc[g] = "K.db.in"       \* db.Close under the db lock; back in Backend: delete(b.users, userID)
      /\ dbClosed' = [dbClosed EXCEPT ![u] = TRUE] /\ userIn' = [userIn EXCEPT ![u] = FALSE]
-     /\ lk' = Unlocked(DB(u), g) /\ closing' = [closing EXCEPT ![g] = NoUser]
+     /\ lk' = Unlocked(DB(u), g) /\ arg' = [arg EXCEPT ![g] = NoUser]
      /\ Go(g, back) /\ SetLab(g, "rel", "db")
      /\ UNCHANGED <<wg, chan>> /\ UNCHANGED KUnch
 
-\* closer: server.go:Close { close(serveDoneCh); serveWG.Wait(); backend.Close (usersLock; for each user: user.close); serveErrCh.Close(); watchers }
+\* closer: server.go:Close { close(serveDoneCh); serveWG.Wait(); backend.Close { usersLock; for each user: user.close };
+\*                           serveErrCh.Close(); watchers }
 CloserStep ==
   LET g == Closer IN
   \/ /\ pc[g] = "C.start" /\ Close(<<"serveDone", "-">>) /\ Go(g, "C.swait") /\ SetLab(g, "ch.close", "serveDoneCh")
-     /\ UNCHANGED <<lk, wg, userIn, dbClosed, closing>> /\ UNCHANGED KUnch
+     /\ UNCHANGED <<lk, wg, userIn, dbClosed, arg>> /\ UNCHANGED KUnch
   \/ /\ pc[g] = "C.swait" /\ wg.serveWG = 0 /\ Go(g, "C.ul") /\ SetLab(g, "wg.wait", "serveWG")
-     /\ UNCHANGED <<lk, wg, chan, userIn, dbClosed, closing>> /\ UNCHANGED KUnch
+     /\ UNCHANGED <<lk, wg, chan, userIn, dbClosed, arg>> /\ UNCHANGED KUnch
   \/ /\ pc[g] = "C.next"
      /\ IF \E u \in Users : userIn[u]
-          THEN /\ \E u \in Users : userIn[u] /\ closing' = [closing EXCEPT ![g] = u]
+          THEN /\ \E u \in Users : userIn[u] /\ arg' = [arg EXCEPT ![g] = u]
                /\ Go(g, "K.quit") /\ UNCHANGED lk /\ NoLab
-          ELSE /\ lk' = Unlocked(UsersLock, g) /\ Go(g, "end") /\ UNCHANGED closing /\ SetLab(g, "rel", "usersLock")
+          ELSE /\ lk' = Unlocked(UsersLock, g) /\ Go(g, "end") /\ UNCHANGED arg /\ SetLab(g, "rel", "usersLock")
      /\ UNCHANGED <<wg, chan, userIn, dbClosed>> /\ UNCHANGED KUnch
   \/ CloseUserStep(g)
 
@@ -630,15 +598,15 @@ CloserStep ==
 RemStep(u) ==
   LET g == Rem(u) IN
   \/ /\ pc[g] = "X.chk"
-     /\ IF userIn[u] THEN Go(g, "K.quit") /\ closing' = [closing EXCEPT ![g] = u] ELSE Go(g, "X.rel") /\ UNCHANGED closing
+     /\ IF userIn[u] THEN Go(g, "K.quit") /\ arg' = [arg EXCEPT ![g] = u] ELSE Go(g, "X.rel") /\ UNCHANGED arg
      /\ NoLab /\ UNCHANGED <<lk, wg, chan, userIn, dbClosed>> /\ UNCHANGED KUnch
   \/ /\ pc[g] = "X.rel" /\ lk' = Unlocked(UsersLock, g) /\ Go(g, "end") /\ SetLab(g, "rel", "usersLock")
-     /\ UNCHANGED <<wg, chan, userIn, dbClosed, closing>> /\ UNCHANGED KUnch
+     /\ UNCHANGED <<wg, chan, userIn, dbClosed, arg>> /\ UNCHANGED KUnch
   \/ CloseUserStep(g)
 
 -----------------------------------------------------------------------------
 \* the environment
-EnvUnch == <<lk, wg, chan, srvClosed, cur, ip, mode, sstate, userIn, states, dbClosed, qItems, qChan, qClosed, fwdHeld, closing,
+EnvUnch == <<lk, wg, chan, srvClosed, cur, mode, sstate, userIn, states, dbClosed, qItems, qChan, qClosed, fwdHeld, arg,
              touches, afterClose>>
 
 Dial(s) ==
@@ -668,16 +636,18 @@ Submit(u, k) ==
 
 StartClose ==
   /\ pc[Closer] = "idle" /\ Go(Closer, "C.start") /\ SetLab(Closer, "call", "Close")
-  /\ UNCHANGED <<lk>> /\ UNCHANGED rest
+  /\ UNCHANGED lk /\ UNCHANGED rest
 
 StartRemove(u) ==
   /\ u \in Removable /\ pc[Rem(u)] = "idle" /\ Go(Rem(u), "X.ul") /\ SetLab(Rem(u), "call", "RemoveUser")
-  /\ UNCHANGED <<lk>> /\ UNCHANGED rest
+  /\ UNCHANGED lk /\ UNCHANGED rest
 
-CloseListener ==       \* the application closes its listener once Server.Close returned
+CloseListener ==       \* the application closes its listener once Server.Close returned; pending connections are reset
   /\ pc[Closer] = "end" /\ listener = "open"
   /\ listener' = "closed" /\ backlog' = {}
-  /\ NoLab /\ UNCHANGED <<pc, accHand, cli, inbox, infl, sent, connQ, submitted>> /\ UNCHANGED EnvUnch
+  /\ cli' = [s \in Sessions |-> IF s \in backlog THEN "gone" ELSE cli[s]]
+  /\ infl' = [s \in Sessions |-> IF s \in backlog THEN FALSE ELSE infl[s]]
+  /\ NoLab /\ UNCHANGED <<pc, accHand, inbox, sent, connQ, submitted>> /\ UNCHANGED EnvUnch
 
 Env ==
   \/ \E s \in Sessions : Dial(s) \/ SendLitData(s) \/ Disconnect(s) \/ \E k \in CmdKinds : SendCmd(s, k)
@@ -689,39 +659,60 @@ Step(g) ==
   \/ AcquireStep(g) \/ ReleaseStep(g)
   \/ CASE g = Acc -> AccStep [] g = Srv -> SrvStep [] g = Closer -> CloserStep
        [] g[1] = "loop" -> LoopStep(g[2]) [] g[1] = "rd" -> RdStep(g[2]) [] g[1] = "h" -> HStep(g[2])
-       [] g[1] = "idl" -> IdlStep(g[2]) [] g[1] = "evp" -> EvpStep(g[2]) [] g[1] = "pump" -> PumpStep(g[2])
+       [] g[1] = "pump" -> PumpStep(g[2])
        [] g[1] = "upd" -> UpdStep(g[2]) [] g[1] = "fwd" -> FwdStep(g[2]) [] g[1] = "rem" -> RemStep(g[2])
 
-AllEnded == \A g \in ServerG : pc[g] \in {"off", "end"}
+\* the two goroutines without steps: ended exactly when the channel they range over is closed
+SenderEnded(s) == Closed(<<"idleCh", s>>)
+PublisherEnded(s) == pc[Loop(s)] = "off" \/ Closed(<<"eventCh", s>>)
+AllEnded == /\ \A g \in ServerG : pc[g] \in {"off", "end"}
+            /\ \A s \in Sessions : SenderEnded(s) /\ PublisherEnded(s)
 AppDone == pc[Closer] = "end" /\ \A u \in Users : pc[Rem(u)] \in {"idle", "end"}
 Terminated == AppDone /\ listener = "closed" /\ AllEnded /\ UNCHANGED vars
 
 Next == (\E g \in G : Step(g)) \/ Env \/ Terminated
 
+Pre(s) == PreLogged[s] # NoUser
+SeqsOf(S, n) == [1..n -> S]
 Init ==
   /\ pc = [g \in G |-> CASE g = Acc -> "A.accept" [] g = Srv -> "S.sel" [] g[1] = "upd" -> "U.sel" [] g[1] = "fwd" -> "F.sel"
-                         [] g \in AppG -> "idle" [] OTHER -> "off"]
+                         [] g = Closer -> IF Eager THEN "C.start" ELSE "idle"
+                         [] g[1] = "rem" -> IF Eager /\ g[2] \in Removable THEN "X.ul" ELSE "idle"
+                         [] g[1] = "loop" /\ Pre(g[2]) -> "L.sel" [] g[1] = "rd" /\ Pre(g[2]) -> "R.read"
+                         [] g[1] = "pump" /\ Pre(g[2]) -> "P.pop"
+                         [] OTHER -> "off"]
   /\ lk = [l \in Locks |-> [w |-> None, r |-> {}]]
-  /\ wg = [statesWG |-> [u \in Users |-> 0], updateWG |-> [u \in Users |-> 1], forwardWG |-> [u \in Users |-> 1],
+  /\ wg = [statesWG |-> [u \in Users |-> Cardinality({s \in Sessions : PreLogged[s] = u})],
+           updateWG |-> [u \in Users |-> 1], forwardWG |-> [u \in Users |-> 1],
            handleWG |-> [s \in Sessions |-> 0], serveWG |-> 1]
   /\ chan = {<<"idleCh", s>> : s \in Sessions}
-  /\ listener = "open" /\ backlog = {} /\ accHand = "-"
-  /\ cli = [s \in Sessions |-> "idle"] /\ inbox = [s \in Sessions |-> "none"] /\ infl = [s \in Sessions |-> FALSE]
-  /\ sent = [s \in Sessions |-> 0] /\ srvClosed = [s \in Sessions |-> FALSE]
-  /\ cur = [s \in Sessions |-> "none"] /\ ip = [s \in Sessions |-> 0] /\ mode = [s \in Sessions |-> "normal"]
-  /\ sstate = [s \in Sessions |-> NoUser]
-  /\ userIn = [u \in Users |-> TRUE] /\ states = [u \in Users |-> {}] /\ dbClosed = [u \in Users |-> FALSE]
+  /\ listener = "open" /\ accHand = "-"
+  /\ backlog = IF Eager THEN {s \in Sessions : ~Pre(s)} ELSE {}
+  /\ cli = [s \in Sessions |-> IF Pre(s) \/ Eager THEN "up" ELSE "idle"]
+  /\ IF Eager /\ MaxCmds > 0 /\ CmdKinds # {}
+       THEN inbox \in [Sessions -> CmdKinds] /\ infl = [s \in Sessions |-> TRUE] /\ sent = [s \in Sessions |-> 1]
+       ELSE inbox = [s \in Sessions |-> "none"] /\ infl = [s \in Sessions |-> FALSE] /\ sent = [s \in Sessions |-> 0]
+  /\ srvClosed = [s \in Sessions |-> FALSE]
+  /\ cur = [s \in Sessions |-> "none"] /\ mode = [s \in Sessions |-> "normal"]
+  /\ sstate = [s \in Sessions |-> PreLogged[s]]
+  /\ userIn = [u \in Users |-> TRUE] /\ states = [u \in Users |-> {s \in Sessions : PreLogged[s] = u}]
+  /\ dbClosed = [u \in Users |-> FALSE]
   /\ qItems = [s \in Sessions |-> 0] /\ qChan = [s \in Sessions |-> 0] /\ qClosed = [s \in Sessions |-> FALSE]
-  /\ connQ = [u \in Users |-> <<>>] /\ fwdHeld = [u \in Users |-> "none"] /\ submitted = [u \in Users |-> 0]
-  /\ closing = [g \in AppG |-> NoUser]
+  /\ IF Eager /\ MaxUpdates > 0 /\ UpdKinds # {}
+       THEN connQ \in [Users -> SeqsOf(UpdKinds, MaxUpdates)] /\ submitted = [u \in Users |-> MaxUpdates]
+       ELSE connQ = [u \in Users |-> <<>>] /\ submitted = [u \in Users |-> 0]
+  /\ fwdHeld = [u \in Users |-> "none"]
+  /\ arg = [g \in AppG \cup ({"h"} \X Sessions) |-> NoUser]
   /\ touches = {} /\ afterClose = FALSE
   /\ lab = Silent
 
 \* Fairness: every goroutine that can take a step eventually does; the application eventually calls Close and closes
-\* its listener afterwards.  Nothing is assumed about clients or the connector.
+\* its listener afterwards; a client that was asked for the rest of a literal sends it or disconnects.
+\* Nothing else is assumed about clients or the connector.
 Fairness ==
   /\ \A g \in G : WF_vars(Step(g))
   /\ WF_vars(StartClose) /\ WF_vars(CloseListener)
+  /\ \A s \in Sessions : WF_vars(SendLitData(s))
 
 Spec == Init /\ [][Next]_vars /\ Fairness
 
@@ -734,11 +725,11 @@ TypeOK ==
   /\ \A s \in Sessions : wg.handleWG[s] \in {0, 1} /\ qItems[s] >= 0 /\ qChan[s] \in 0..ChanCap
   /\ wg.serveWG >= 0
 
-\* Lock-order consistency: whenever a goroutine holds l1 and is about to acquire l2, l1 is above l2 in ONE fixed
-\* hierarchy (Rank).  The held-while-acquiring relation is therefore contained in a strict order: it is acyclic.
-LockOrder == \A g \in G : LET a == Want(g) IN a.m # "-" => \A l \in HeldBy(g) : Rank(l) < Rank(a.l)
+\* Lock-order consistency: whenever a goroutine holds l1 and is about to acquire l2, l1 is left of l2 in ONE fixed
+\* hierarchy (Rank).  The held-while-acquiring relation is contained in a strict order, hence acyclic.
+LockOrder == \A g \in G : LET a == AcqOf(g) IN a.m # "-" => \A l \in HeldBy(g) : Rank(l) < Rank(a.l)
 
-\* user.statesWG counts exactly the states in user.states that have not finished removeState
+\* user.statesWG covers every state in user.states
 StatesCounted == \A u \in Users : Cardinality(states[u]) <= wg.statesWG[u]
 
 \* the database of a user is only closed when no state of that user is left, and nobody uses it afterwards
@@ -749,6 +740,7 @@ DbClosedMeansNoStates == \A u \in Users : dbClosed[u] => (states[u] = {} /\ wg.s
 OnlyOwner == \A t \in touches : t[2] = "own"
 
 \* at a state from which nothing can happen any more, nothing gluon started is left
+\* (TLC's deadlock check reports every such state that is not Terminated; this invariant names the leak case)
 Quiet == \A g \in G : ~ENABLED Step(g)
 NoGoroutineLeft == (AppDone /\ listener = "closed" /\ Quiet) => AllEnded
 
@@ -758,7 +750,10 @@ RemoveUserReturns == \A u \in Users : (pc[Rem(u)] # "idle") ~> (pc[Rem(u)] = "en
 EveryCommandCompletes == \A s \in Sessions : infl[s] ~> ~infl[s]
 NothingLeftEventually == <>[]AllEnded
 
-\* instances used by the cfg files (cfg files cannot contain functions)
-LT_AllToFirst == [s \in Sessions |-> {CHOOSE u \in Users : \A v \in Users : TRUE}]
+\* instances for the cfg files (cfg files cannot contain functions)
 LT_Any == [s \in Sessions |-> Users]
+PL_None == [s \in Sessions |-> NoUser]
+OneUser == CHOOSE u \in Users : TRUE
+PL_All == [s \in Sessions |-> OneUser]
+SymSessions == Permutations(Sessions)
 =============================================================================
